@@ -595,7 +595,10 @@ def check_tbl(ctx, o, sampling=None, tag="gen", shrink=True, extra=None):
     content = _read(path)
     ang = conv_tokens(o)
     rows = [{"index": str(i), "ang": ang[i], "trans": [str(x) for x in o["t"][i]], "score": str(o["s"][i])} for i in range(n)]
-    ctx.agree("tbl.write(bytes)", inp, content, ctx.driver.call("c11.writeTbl", sampling=str(1.0 if sampling is None else sampling), rows=rows))
+    ex = extra or {}
+    ctx.agree("tbl.write(bytes)", inp, content, ctx.driver.call(
+        "c11.writeTbl", sampling=str(1.0 if sampling is None else sampling), rows=rows, name_prefix=ex.get("name_prefix"),
+        size=None if "subtomogram_size" not in ex else str(int(ex["subtomogram_size"]))))
     raw, err = _quiet(Orientations._from_tbl, path)
     m = ctx.driver.call("c11.readTbl", text=content)
     if isinstance(m, str) or err:
